@@ -25,7 +25,8 @@
 (* harness records such calls and does not judge the length.                   *)
 EXTENDS Integers, Sequences, FiniteSets, TLC
 
-CONSTANT BitsSet          \* the requested modulus bit lengths explored
+CONSTANTS BitsSet,        \* the requested modulus bit lengths explored
+          PlanSizes       \* the even lengths the harness may request in its generation plan (any size; classified only)
 
 PQBitLenDifference == 3   \* paillier.go: pQBitLenDifference
 
@@ -47,9 +48,53 @@ ASSUME \A b \in BitsSet : b \in Nat /\ b >= 12 /\ b <= 30   \* the generator ref
 (* what runGenPrimeRoutine can deliver for pBitLen = b: q of b-1 bits with the two top bits set, *)
 (* q and p = 2q+1 prime; hence p has b bits with its two top bits set                            *)
 SafePrimesOf(b) == {p \in (3 * Pow2(b - 2))..(Pow2(b) - 1) : IsSafePrime(p)}
-SP == [b \in {x \div 2 : x \in BitsSet} |-> SafePrimesOf(b)]     \* evaluated once
+SP == TLCEval([b \in {x \div 2 : x \in BitsSet} |-> TLCEval(SafePrimesOf(b))])     \* evaluated once (TLCEval: explicit values, not lazy ones)
 
 FarApart(bits, p, q) == BitLen(Abs(p - q)) >= (bits \div 2) - PQBitLenDifference
+
+-----------------------------------------------------------------------------
+(* WHY SP has that shape: the candidate of runGenPrimeRoutine, byte by byte.    *)
+(* The generator reads NBytes(qb) random bytes for a candidate q of qb =         *)
+(* pBitLen - 1 bits, masks the top byte down to TopBits(qb) bits, forces the two *)
+(* most significant bits and the lowest bit.  Which code path forces the second  *)
+(* bit depends on TopBits(qb), i.e. on qb modulo 8: for TopBits >= 2 both bits   *)
+(* live in the top byte, for TopBits = 1 the second one is bit 7 of the NEXT     *)
+(* byte.  A defect in one of these paths shows only for requested lengths of     *)
+(* one residue class of (modulusBitLen / 2) modulo 8 (all lengths the library    *)
+(* and its tests use, 2048 -> qb = 1023, are in ONE class) - and then only in a  *)
+(* fraction of the keys (a factor below 3/4 of the range makes the product one   *)
+(* bit short only together with a small enough partner).  Hence SizeClass and    *)
+(* the KEYCLASS catalogue below: the harness must generate many keys in EVERY    *)
+(* class.                                                                        *)
+TopBits(qb) == IF qb % 8 = 0 THEN 8 ELSE qb % 8          \* b
+NBytes(qb)  == (qb + 7) \div 8
+SetBit(x, k) == IF (x \div Pow2(k)) % 2 = 1 THEN x ELSE x + Pow2(k)
+
+(* r: the bytes read, as one big-endian number in 0 .. 256^NBytes(qb) - 1 *)
+Candidate(qb, r) ==
+  LET b    == TopBits(qb)
+      low  == 8 * (NBytes(qb) - 1)                        \* number of bits below the top byte
+      top  == (r \div Pow2(low)) % Pow2(b)                \* bytes[0] &= (1 << b) - 1
+      rest == r % Pow2(low)
+      top2 == IF b >= 2 THEN SetBit(SetBit(top, b - 1), b - 2)   \* bytes[0] |= 3 << (b - 2)
+                        ELSE SetBit(top, 0)                      \* bytes[0] |= 1
+      rest2 == IF b >= 2 \/ low = 0 THEN rest ELSE SetBit(rest, low - 1)   \* bytes[1] |= 0x80
+  IN  SetBit(top2 * Pow2(low) + rest2, 0)                 \* bytes[len-1] |= 1
+
+(* candidate lengths that cover every value of TopBits, with one and with two bytes *)
+CandQBits == 5..16
+(* every top byte; of the low byte the values that matter (it passes through but for bits 0 and 7) *)
+RandomBytes(qb) == IF NBytes(qb) = 1 THEN 0..255 ELSE {h * 256 + lo : h \in 0..255, lo \in {0, 1, 126, 127, 128, 254, 255}}
+
+CandidateShape ==
+  \A qb \in CandQBits : \A r \in RandomBytes(qb) :
+     LET c == Candidate(qb, r) IN
+       /\ BitLen(c) = qb /\ c >= 3 * Pow2(qb - 2) /\ c % 2 = 1
+       /\ BitLen(2 * c + 1) = qb + 1 /\ 2 * c + 1 >= 3 * Pow2(qb - 1)     \* p = 2q+1 has its two top bits set as well
+
+(* the residue class of a requested length: which path of Candidate its primes go through *)
+SizeClass(bits) == (bits \div 2) % 8
+ClassTopBits(c) == TopBits(((c + 7) % 8))        \* qb = bits/2 - 1
 
 MakeKey(p, q) ==
   [p |-> p, q |-> q, n |-> p * q,
@@ -74,7 +119,7 @@ Accept(p, q) ==
   /\ FarApart(bits, p, q)
   /\ stage' = "done" /\ key' = MakeKey(p, q) /\ UNCHANGED bits
 
-Next == \E p \in SP[bits \div 2], q \in SP[bits \div 2] : Retry(p, q) \/ Accept(p, q)
+Next == stage = "draw" /\ \E p \in SP[bits \div 2], q \in SP[bits \div 2] : Retry(p, q) \/ Accept(p, q)   \* (guard first: TLC would enumerate all pairs in every "done" state)
 Spec == Init /\ [][Next]_vars
 
 -----------------------------------------------------------------------------
@@ -102,11 +147,22 @@ OddRequestOneShort == (stage = "done" /\ bits % 2 = 1) =>
 LambdaIsHalfPhi == stage = "done" => 2 * key.lambda = key.phi
 
 (* why the length is exact: both factors have their two top bits set *)
+Pow2T == TLCEval([k \in 0..30 |-> Pow2(k)])      \* table (TLC: a comparison per pair instead of a recursion per pair)
 TopTwoBits == stage = "draw" =>
-  \A p \in SP[bits \div 2] :
-     /\ BitLen(p) = bits \div 2
-     /\ p >= 3 * Pow2((bits \div 2) - 2)
-     /\ \A q \in SP[bits \div 2] : BitLen(p * q) = 2 * (bits \div 2)
+  LET h == bits \div 2 IN
+  \A p \in SP[h] :
+     /\ BitLen(p) = h
+     /\ p >= 3 * Pow2(h - 2)
+     /\ \A q \in SP[h] : p * q >= Pow2T[2 * h - 1] /\ p * q < Pow2T[2 * h]      \* i.e. BitLen(p * q) = 2 * h
+
+(* the candidate construction delivers the shape SP assumes *)
+ASSUME CandidateShape
+
+(* the generation plan: the harness offers even lengths (PlanSizes); every residue class must be represented,  *)
+(* and the rows tell the harness which length exercises which path (read by the harness: KEYCLASS class b size) *)
+ASSUME \A b \in PlanSizes : b \in Nat /\ b % 2 = 0 /\ b >= 12
+ASSUME \A c \in 0..7 : \E b \in PlanSizes : SizeClass(b) = c
+ASSUME \A b \in PlanSizes : PrintT(<<"KEYCLASS", SizeClass(b), ClassTopBits(SizeClass(b)), b>>)
 
 (* which requests can be served at all; read by the harness *)
 Acceptable(b) == {pq \in SP[b \div 2] \X SP[b \div 2] : FarApart(b, pq[1], pq[2])}
